@@ -577,4 +577,27 @@ def gen():
         return 'Definition gen_ms_table_is_one_chunk_stream : bool := true.\n'
     emit(defs, 'gen_ms_table_is_one_chunk_stream', ms_table)
 
+    def borders_from_neighbours():
+        f = find_function(gb, 'groupby')
+        vals = [n.value for n in ast.walk(f) if isinstance(n, ast.Assign) and len(n.targets) == 1 and src_of(n.targets[0]) == 'changes']
+        if [src_of(v) for v in vals] != ['get_changes(keys)', 'np.append(np.insert(changes, 0, 0), len(data))']:
+            raise Unsupported('group borders are not get_changes(keys) framed by 0 and len(data): %s' % [src_of(v) for v in vals])
+        gch = find_function(gb, 'get_changes')
+        first = gch.body[0]
+        if not (isinstance(first, ast.If) and src_of(first.test) == 'isinstance(array, EncodedArray) and isinstance(array.encoding, StringEncoding)'
+                and len(first.body) == 1 and src_of(first.body[0]) == 'return np.flatnonzero(array.raw()[1:] != array.raw()[:-1]) + 1'):
+            raise Unsupported('StringEncoding-coded keys are not compared row by row with their neighbour')
+        return 'Definition gen_borders_compare_neighbouring_rows : bool := true.\n'
+    emit(defs, 'gen_borders_compare_neighbouring_rows', borders_from_neighbours)
+
+    def derive_functional():
+        f = find_function(gc, 'GenomeContext.with_ignored_added')
+        body = [st for st in f.body if not (isinstance(st, ast.Expr) and isinstance(st.value, ast.Constant))]   # drop the docstring
+        srcs = [src_of(st) for st in body]
+        if srcs != ['c = self._original_chrom_sizes.copy()', 'c.update({name: 0 for name in ignored})',
+                    'return self.__class__(c, set(ignored) | set(self._ignored))']:
+            raise Unsupported('with_ignored_added is not copy + update of the copy + a new context over fresh sets: %s' % srcs)
+        return 'Definition gen_with_ignored_added_is_functional : bool := true.\n'
+    emit(defs, 'gen_with_ignored_added_is_functional', derive_functional)
+
     return 'bionumpy/genomic_data/genome_context.py, streams/multistream.py, streams/left_join.py, streams/groupby_func.py, genomic_data/genomic_track.py, genomic_data/genomic_intervals.py, computation_graph.py, streams/decorators.py, arithmetics/similarity_measures.py', defs
